@@ -66,6 +66,14 @@ def static_mutants(schema):
             m = copy.deepcopy(schema)
             m[ri]['sign'].insert(pos, '#zz')
             yield 'undefined-rule-in-signers', m
+            # a temporary rule cannot be named as a signer either (defined once, and defined twice)
+            m = copy.deepcopy(schema)
+            m[ri]['sign'].insert(pos, '#_tmp')
+            yield 'temporary-rule-in-signers', [{'id': '#_tmp', 'name': [['lit', 'k'], ['pat', '_']], 'cons': [], 'sign': []}] + m
+            m = copy.deepcopy(schema)
+            m[ri]['sign'].insert(pos, '#_tmp')
+            yield 'temporary-rule-in-signers', m + [{'id': '#_tmp', 'name': [['lit', 'k'], ['pat', '_']], 'cons': [], 'sign': []},
+                                                    {'id': '#_tmp', 'name': [['lit', 'j']], 'cons': [], 'sign': []}]
         # reference cycles through this rule
         m = copy.deepcopy(schema)
         m[ri]['name'].append(['ref', r['id']])
